@@ -9,10 +9,11 @@ replace/extend.
 """
 import copy
 import itertools
+import sys
 from dataclasses import dataclass, make_dataclass
 from typing import Annotated, Callable, Dict, Generic, List, Literal, NewType, Optional, Sequence, TypeVar, Union
 
-from adaptix import DebugTrail, P, Retort, dumper, loader, name_mapping
+from adaptix import DebugTrail, P, ProviderNotFoundError, Retort, dumper, loader, name_mapping
 from adaptix.conversion import ConversionRetort, coercer
 
 from mc import codec, env, parallel
@@ -552,6 +553,105 @@ def located_leg(report, max_len):
                     break
 
 
+_CRASH_SRC = """
+from dataclasses import dataclass, field
+from typing import List, Optional, Dict
+
+@dataclass
+class Tail:
+    x: int
+    later: Optional["Later"] = None      # unresolved until the module defines Later
+
+@dataclass
+class CNode:
+    v: int
+    kids: List["CNode"] = field(default_factory=list)
+    by_name: Dict[str, "CNode"] = field(default_factory=dict)
+    tail: Optional[Tail] = None
+
+@dataclass
+class CTree:
+    root: CNode
+    forest: List[CNode] = field(default_factory=list)
+"""
+_CRASH_LATER = """
+@dataclass
+class Later:
+    y: int = 0
+"""
+CRASH_DATA = {"v": 1, "kids": [{"v": 2, "kids": [{"v": 3, "tail": {"x": 1, "later": {"y": 5}}}], "by_name": {"k": {"v": 4}}}], "tail": {"x": 9}}
+CRASH_OPS = [("get_loader", "CNode"), ("get_loader", "List[CNode]"), ("get_loader", "CTree"), ("get_dumper", "CNode"),
+             ("get_dumper", "CTree"), ("load", "CTree")]
+
+
+def crashing_leg(report, max_len):
+    """requests that die with an exception that is NOT a refusal (NameError of a forward reference the module does not define yet,
+    raised while a model nested below a recursive one is introspected); after the module defines the name, every probe on the same
+    retort is compared with a fresh retort: 'never on ... whether a request failed earlier'"""
+    import types as _types
+    from typing import List as _List
+
+    def world():
+        env.reset_process_caches()
+        mod = _types.ModuleType("c11_crash_mod")
+        sys.modules["c11_crash_mod"] = mod
+        exec(_CRASH_SRC, mod.__dict__)  # noqa: S102
+        tps = {"CNode": mod.CNode, "List[CNode]": _List[mod.CNode], "CTree": mod.CTree}
+        return mod, tps
+
+    def probes(r, tps):
+        out = {}
+        for name, tp in tps.items():
+            d = copy.deepcopy(CRASH_DATA)
+            d = [d, d] if name.startswith("List") else ({"root": d, "forest": [copy.deepcopy(d)]} if name == "CTree" else d)
+            loaded = outcome(r.load, d, tp)
+            out[("load", name)] = loaded
+            try:
+                obj = r.load(copy.deepcopy(d), tp)
+                out[("dump", name)] = outcome(r.dump, obj, tp)
+            except Exception as e:  # noqa: BLE001
+                out[("dump", name)] = "load failed: " + type(e).__name__
+        return out
+
+    mod, tps = world()
+    exec(_CRASH_LATER, mod.__dict__)  # noqa: S102
+    want = probes(Retort(), tps)
+    if not all(str(v).startswith("ok") for k, v in want.items()):
+        raise RuntimeError(f"crashing leg: the fresh retort must serve every probe once Later is defined: {want}")
+    crashed = 0
+    for n in range(1, max_len + 1):
+        for hist in itertools.product(CRASH_OPS, repeat=n):
+            mod, tps = world()
+            r = Retort()
+            for op in hist:
+                tp = tps[op[1]]
+                try:
+                    if op[0] == "get_loader":
+                        r.get_loader(tp)
+                    elif op[0] == "get_dumper":
+                        r.get_dumper(tp)
+                    else:
+                        r.load({"root": copy.deepcopy(CRASH_DATA)}, tp)
+                except Exception as e:  # noqa: BLE001
+                    crashed += not isinstance(e, ProviderNotFoundError)
+            exec(_CRASH_LATER, mod.__dict__)  # noqa: S102
+            env.reset_process_caches()     # typing / normalisation caches are process state, not the retort's
+            got = probes(r, tps)
+            report.count("traces_validated_against_impl", 1)
+            report.case(("crashing", hist), nontrivial=True, sample={"leg": "crashing", "history": [list(o) for o in hist]})
+            for key, g in got.items():
+                report.evaluations += 1
+                if g != want[key]:
+                    report.violation({"check": "C11", "kind": "crashed_request", "after_failed_request": True},
+                                     f"requests {[list(o) for o in hist]} died because the forward reference 'Later' was not defined yet; "
+                                     f"after it was defined the same retort answers probe {key} with {str(g)[:140]} but a fresh retort "
+                                     f"answers {str(want[key])[:100]}",
+                                     {"leg": "crashing", "history": [list(o) for o in hist], "probe": list(map(str, key))})
+                    break
+    report.count("crashing_requests_that_died_with_a_non_refusal", crashed)
+    sys.modules.pop("c11_crash_mod", None)
+
+
 def constructor_recipe_leg(report):
     """the recipe given to the constructor may be any iterable (a generator, a list the caller reuses afterwards): the retort and
     every clone made later by replace()/extend() must keep exactly the providers it was given"""
@@ -600,6 +700,7 @@ def constructor_recipe_leg(report):
 def run(tier):
     report = Report()
     located_leg(report, 2 if tier == "quick" else 3)
+    crashing_leg(report, 2 if tier == "quick" else 3)
     constructor_recipe_leg(report)
     ops = operations()
     if tier == "quick":
@@ -638,6 +739,11 @@ def replay(case):
     report = Report()
     if case.get("leg") == "constructor_recipe":
         constructor_recipe_leg(report)
+        for v in report.violations.values():
+            return v["what"]
+        return None
+    if case.get("leg") == "crashing":
+        crashing_leg(report, len(case["history"]))
         for v in report.violations.values():
             return v["what"]
         return None
